@@ -27,7 +27,7 @@ META = dict(
                  'shape_matmul and the matmulv2 helpers do handle 1-d operands (proved); natively matmulv2((3,),(3,2)) = [22 28] as numpy',
                  'index::kron_dst_transpose (recursive; its instantiation chain ends in std::vector results, not modelled)',
                  'outer: one bounded concrete-geometry unit (outer_2_3.bounded: the real view, (2)x(3), symbolic floats, float * uninterpreted); vecdot, trace: no index helper of their own (compositions of broadcasting multiply / sum / diagonal: C06, C08, C04). '
-                 'A whole-view bounded check of matmul was tried: matmul_t goes through dynamic (std::variant) slices, matmulv2 extracts but its model check does not finish in 25 min',
+                 'Whole-view bounded checks of matmul, dot (1-d lhs) and trace (default axes) were tried: matmul_t goes through dynamic (std::variant) slices, matmulv2 / dot / trace extract but their model checks do not finish in 15-25 min (the run-time index arithmetic of the tile / reshape / transpose pipeline is not removed by constant propagation); consequently the seeded changes C16-4 (trace default axes) and C16-5 (dot fast path for a fixed-length 1-d lhs) are NOT detected',
                  'maybe-lifting overloads and compile-time (constant index) branches (type level)',
                  'both matmul implementations computing equal elements'],
 )
@@ -60,3 +60,4 @@ UNITS = [
     Unit('tensordot_lhs_transpose.bp', 'c16', 'verif_tensordot_lhs_transpose', mode='bp', unwind=10, clause='tensordot (explicit axes): left operand axes = non-contracted in increasing order, then the contracted ones in the given order'),
     Unit('tensordot_rhs_transpose.bp', 'c16', 'verif_tensordot_rhs_transpose', mode='bp', unwind=10, clause='tensordot (explicit axes): right operand axes = non-contracted in increasing order, then the contracted ones in the given order'),
 ]
+UNITS += import_units('C04', names=['shape_diagonal.bp', 'diagonal.bp'], clause='trace: the diagonal it sums has the NumPy length for every offset (also negative, non-square) and addresses a[i][i+offset]')
